@@ -1,7 +1,8 @@
 (** * C12 — The canvas has one cell of margin and contains everything that is drawn.
-    Statements only; proofs in Theory/ExtentTheory.v. *)
+    Statements only; proofs in Theory/ExtentTheory.v, Theory/PipeInv.v and Theory/Canvas.v. *)
 Require Import SB.Model.Base SB.Model.Unicode SB.Model.Geom SB.Model.Fragment SB.Model.Property SB.Model.Text
-  SB.Model.FragBuf SB.Model.Lib SB.Theory.ExtentTheory SB.Gen.AsciiMap SB.Gen.UnicodeMap SB.Gen.CircleTables.
+  SB.Model.FragBuf SB.Model.Endorse SB.Model.Lib SB.Theory.ExtentTheory SB.Theory.PipeInv SB.Theory.Canvas
+  SB.Gen.AsciiMap SB.Gen.UnicodeMap SB.Gen.CircleTables.
 From Coq Require Import QArith.
 From Coq Require Import List.
 Import ListNotations.
@@ -63,10 +64,48 @@ Proof. exact unicode_extent. Qed.
 Theorem C12_catalogue_stays_inside : catalogue_extent_ok = true.
 Proof. exact catalogue_extent. Qed.
 
-(** The pipeline step from these local facts to "every emitted primitive lies inside the
-    canvas" (merging keeps hulls inside, endorsed rectangles are bounding boxes) is decided by
-    the correspondence and the oracle of this check; quoted text is the recorded known finding
-    K1 (it is kept outside the cell map and therefore outside the canvas computation). *)
+(** The pipeline step from these local facts to the whole drawing.  [fbox f] is the box of a
+    fragment: its bounds and, for an arc, the box of ExtentTheory around its bulge; the canvas
+    in ticks is [(last column + 2) * CW] by [(last row + 2) * CH] (the formula above, with
+    scale * t / 40 user units per tick).  Every fragment accepted from the cell map and every
+    fragment of every contact group lies inside it: table fragments reach left of or above
+    their cell only towards an existing neighbour (sweep [tables_reach]), merging stays in the
+    hull of what is merged, a recognised rectangle is spanned by bound points of its group, a
+    recognised circle or arc lies within the cells that matched its drawing (sweep
+    [catalogue_reach]).  For all inputs. *)
+Theorem C12_everything_recognised_is_inside :
+  forall input cb acc groups,
+    cellbuffer_from input = Ok cb -> endorse_cells (cb_cells cb) = Ok (acc, groups) ->
+    Forall (fun f => within (canvas_of_cells (cb_cells cb)) (fs_frag f)) acc
+    /\ Forall (Forall (fun f => within (canvas_of_cells (cb_cells cb)) (fs_frag f))) groups.
+Proof. exact recognised_inside_canvas. Qed.
+Check C12_everything_recognised_is_inside :
+  forall input cb acc groups,
+    cellbuffer_from input = Ok cb -> endorse_cells (cb_cells cb) = Ok (acc, groups) ->
+    Forall (fun f => within (canvas_of_cells (cb_cells cb)) (fs_frag f)) acc
+    /\ Forall (Forall (fun f => within (canvas_of_cells (cb_cells cb)) (fs_frag f))) groups.
+(** the canvas in ticks is the canvas of [canvas_size] *)
+Theorem C12_canvas_in_ticks :
+  forall st cells, let '(x0, y0, x1, y1) := canvas_of_cells cells in
+    x0 = 0 /\ y0 = 0
+    /\ (fst (canvas_size st cells) == scale st * inject_Z x1 / 40)%Q
+    /\ (snd (canvas_size st cells) == scale st * inject_Z y1 / 40)%Q.
+Proof.
+  intros st cells. unfold canvas_of_cells, canvas_size, canvas_of; cbn [fst snd]. rewrite !Qred_correct.
+  split; [reflexivity|]. split; [reflexivity|]. unfold CW, CH. rewrite !inject_Z_mult, !inject_Z_plus. split; field.
+Qed.
+(** the generic statement behind it, for any set of cells inside a box of columns and rows *)
+Theorem C12_recognition_stays_in_the_box_of_the_cells :
+  forall cells X Y,
+    (forall e, In e cells -> 0 <= cx (fst e) /\ cx (fst e) <= X /\ cx (fst e) + char_cols (snd e) - 1 <= X /\ 0 <= cy (fst e) /\ cy (fst e) <= Y) ->
+    forall acc groups, endorse_cells cells = Ok (acc, groups) ->
+      Forall (Rc cells X Y) acc /\ Forall (Forall (Rc cells X Y)) groups.
+Proof. exact endorse_cells_in_canvas. Qed.
+
+(** Quoted text is the recorded known finding K1 (it is kept outside the cell map and therefore
+    outside the canvas computation); the step from fragments to the numbers written in the
+    document (scaling, the text anchor inside its cell) is decided by the correspondence and
+    the oracle of this check. *)
 Definition C12_quoted_text_finding : Prop :=
   exists input, match cellbuffer_from input with
                 | Ok cb => cb_escaped cb <> [] /\ cb_cells cb = []
